@@ -15,7 +15,8 @@ Section Build.
 
   Notation buildSample := (buildSample is_head is_tail unmarshal c).
   Notation rel := (rel is_head is_tail unmarshal).
-  Notation sample_ok := (sample_ok is_head is_tail unmarshal).
+  Notation run_ok := (run_ok is_head unmarshal).
+  Notation ts_ok := (sample_ts is_tail).
   Notation ptail p := (is_tail (p_marker p) (p_payload p)).
 
   Lemma rel_purge2 : forall s l, rel s (purgeConsumedBuffers (purgeConsumedLocation s l true)).
@@ -40,7 +41,7 @@ Section Build.
     buf s5 = buf s4 -> released s5 = released s4 -> built s5 = smp :: built s4 ->
     prep s5 = bset k smp (prep s4) -> filled s5 = filled s4 -> active s5 = active s4 ->
     fault s5 = fault s4 ->
-    (fault s4 = 0 -> locs_ok s0 -> sample_ok (buf s0) smp) ->
+    (locs_ok s0 -> run_ok (buf s0) smp /\ (fault s4 = 0 -> ts_ok smp)) ->
     rel s0 s5.
   Proof.
     intros s0 s4 s5 smp k [a0 af a1 a2 a3 a4 a5 a6 a7] Eb Er Ebu Ep Ef Ea Efa Hs.
@@ -48,7 +49,7 @@ Section Build.
     - intro H. specialize (a0 H). unfold locs_ok in *. rewrite Ef, Ea. exact a0.
     - rewrite Efa. exact af.
     - rewrite Eb. exact a1.
-    - rewrite Efa, Ebu. intros Hf Hok x [<-|Hx]; [right; apply Hs; assumption|apply a2; assumption].
+    - rewrite Efa, Ebu. intros Hok x [<-|Hx]; [right; apply Hs; assumption|apply a2; assumption].
     - rewrite Ebu. apply incl_tl. exact a3.
     - rewrite Ep, Ebu. intros e [<-|He]; [right; left; reflexivity|].
       apply In_bdel in He. destruct (a4 e (proj1 He)) as [H|H]; [left; exact H|right; right; exact H].
@@ -161,17 +162,18 @@ Section Build.
         apply N.eqb_neq in Ef; contradiction. }
     assert (R05 : rel s0 s5).
     { apply (rel_add_sample s0 s4 s5 smp (l_tail (prepared s4)) R04); try reflexivity.
-      intros Hf4 Hok.
+      intros Hok.
       destruct (Hrun Hok col (hp :: rest) eq_refl Eas) as (Htl & hp' & rest' & Epk & HF & Hh & Hts).
-      injection Epk as <- <-. specialize (Hts (Hfault4 Hf4)). destruct Hts as (Hts1 & Hts2 & Hts3).
-      exists (l_head (active s2)), hp, rest, (d0 :: ds).
-      split; [exact Hh|]. split; [reflexivity|]. split.
-      { eapply Forall2_mono; [|exact HF]. intros k0 p0 Hin. apply (r_buf _ _ _ _ _ R2). exact Hin. }
-      split; [apply negb_false_iff in Ehd; exact Ehd|]. split.
-      { cbn [map]. rewrite Eu. f_equal. apply all_some_spec. exact Eds. }
-      split; [reflexivity|]. split; [cbn [s_ts smp]; subst smp; cbn; symmetry; exact Hts1|]. split.
-      - intros p Hp. rewrite Hts1. apply Hts2. exact Hp.
-      - intros Hl. rewrite Hts1. apply Hts3. exact Hl. }
+      injection Epk as <- <-. split.
+      - exists (l_head (active s2)), hp, rest, (d0 :: ds).
+        split; [exact Hh|]. split; [reflexivity|]. split.
+        { eapply Forall2_mono; [|exact HF]. intros k0 p0 Hin. apply (r_buf _ _ _ _ _ R2). exact Hin. }
+        split; [apply negb_false_iff in Ehd; exact Ehd|]. split; [|reflexivity].
+        cbn [map]. rewrite Eu. f_equal. apply all_some_spec. exact Eds.
+      - intro Hf4. specialize (Hts (Hfault4 Hf4)). destruct Hts as (Hts1 & Hts2 & Hts3).
+        exists hp, rest. split; [reflexivity|]. split; [subst smp; cbn; symmetry; exact Hts1|]. split.
+        + intros p Hp. rewrite Hts1. apply Hts2. exact Hp.
+        + intros Hl. rewrite Hts1. apply Hts3. exact Hl. }
     split.
     - eapply rel_trans; [exact R05|apply rel_purge2].
     - intros x Hx. injection Hx as <-.
@@ -227,11 +229,11 @@ Section Build.
   Qed.
 
   (* ---------- histories ---------- *)
-  Notation sample_wf := (sample_wf is_head is_tail unmarshal).
+  Notation sample_run := (sample_run is_head unmarshal).
 
-  Lemma sample_wf_incl : forall P P' x, incl P P' -> sample_wf P x -> sample_wf P' x.
+  Lemma sample_run_incl : forall P P' x, incl P P' -> sample_run P x -> sample_run P' x.
   Proof.
-    intros P P' x Hi (h & hp & rest & ds & Hh & H1 & H2 & H3 & H4 & H5 & H6 & H7 & H8).
+    intros P P' x Hi (h & hp & rest & ds & Hh & H1 & H2 & H3 & H4 & H5).
     exists h, hp, rest, ds. repeat (split; [assumption|]). split; [|tauto].
     eapply Forall2_mono; [|exact H2]. intros k p [Hin Hs]. split; [apply Hi; exact Hin|exact Hs].
   Qed.
@@ -239,7 +241,7 @@ Section Build.
   Record inv (P : list packet) (s : st) : Prop := mkInv {
     i_ok : locs_ok s;
     i_buf : forall k p, In (k, p) (buf s) -> In p P /\ p_seq p = k;
-    i_built : fault s = 0 -> forall x, In x (built s) -> sample_wf P x;
+    i_built : forall x, In x (built s) -> sample_run P x /\ (fault s = 0 -> ts_ok x);
     i_prep : forall e, In e (prep s) -> In (snd e) (built s);
     i_nodup : NoDup (pool s);
     i_pool : forall id, In id (pool s) -> In id (map p_id P);
@@ -251,10 +253,12 @@ Section Build.
     intros P s s' [i0 i1 i2 i3 i4 i5 i6] [a0 af a1 a2 a3 a4 a5 a6 a7]. constructor.
     - auto.
     - intros k p H. apply i1. apply a1. exact H.
-    - intros Hf x Hx. destruct (a2 Hf i0 x Hx) as [H|H]; [apply i2; auto|].
-      destruct H as (h & hp & rest & ds & Hh & H1 & H2 & H3).
-      exists h, hp, rest, ds. split; [exact Hh|]. split; [exact H1|]. split; [|exact H3].
-      eapply Forall2_mono; [|exact H2]. intros k p Hin. apply i1. exact Hin.
+    - intros x Hx. destruct (a2 i0 x Hx) as [H|[H H']].
+      + destruct (i2 x H) as [G G']. split; [exact G|]. intro Hf. apply G'. apply af. exact Hf.
+      + split; [|exact H'].
+        destruct H as (h & hp & rest & ds & Hh & H1 & H2 & H3).
+        exists h, hp, rest, ds. split; [exact Hh|]. split; [exact H1|]. split; [|exact H3].
+        eapply Forall2_mono; [|exact H2]. intros k p Hin. apply i1. exact Hin.
     - intros e He. destruct (a4 e He) as [H|H]; [apply a3; apply i3; exact H|exact H].
     - auto.
     - intros id Hid. apply i5. apply a6. exact Hid.
@@ -265,7 +269,7 @@ Section Build.
   Proof.
     intros P P' s Hi [i0 i1 i2 i3 i4 i5 i6]. constructor; auto.
     - intros k p H. destruct (i1 k p H). split; auto.
-    - intros Hf x Hx. eapply sample_wf_incl; [exact Hi|]. apply i2; assumption.
+    - intros x Hx. destruct (i2 x Hx) as [G G']. split; [eapply sample_run_incl; eassumption|exact G'].
     - intros id Hid. specialize (i5 id Hid). apply in_map_iff in i5. destruct i5 as (p & <- & Hp).
       apply in_map. apply Hi. exact Hp.
   Qed.
